@@ -124,8 +124,11 @@ class Renderer(object):
                 tail = self.rng.choice(["  # end", " .", "yaml", '"'])        # text behind the closing delimiter is tolerated
             elif not self.layout:
                 import zlib
-                if zlib.crc32(st["doc"].encode("utf-8") + st["text"].encode("utf-8")) % 4 == 0:
+                crc = zlib.crc32(st["doc"].encode("utf-8") + st["text"].encode("utf-8"))
+                if crc % 4 == 0:
                     tail = ("  # end", " .", "yaml")[len(st["text"]) % 3]     # (deterministic: no generator state is used here)
+                if crc % 3 == 1:
+                    cind = ind + "  "       # closing delimiter indented deeper than the opening one (only the opening column matters)
             self.raw(cind + q + tail)
         if st.get("table") is not None:
             self.table(st["table"], key + ("table",), indent + 2)
